@@ -403,8 +403,9 @@ func c14FrameMap(r *core.Report) {
 // c14NoPooledAlias (R5): in any function of the repository that takes a value from a sync.Pool or puts one back,
 // no []byte result may be derived (through Bytes(), slicing or plain assignment) from that pooled value
 // unless it is copied first: the pool hands the same buffer to the next caller.
-func c14NoPooledAlias(r *core.Report) {
-	const rule = "C14.R5"
+func c14NoPooledAlias(r *core.Report) { c14NoPooledAliasAs(r, "C14.R5") }
+
+func c14NoPooledAliasAs(r *core.Report, rule string) {
 	p := r.Prog
 	n := 0
 	for _, f := range p.AllFns {
